@@ -11,6 +11,7 @@ RANK_RULES = ["STV", "IRV", "SequentialRCV", "Plurality", "SNTV", "Borda", "TopT
               "DominatingSets", "CondoBorda", "RandomDictator", "BoostedRandomDictator", "PluralityVeto"]
 SCORE_RULES = ["Rating", "Limited", "Cumulative", "Approval", "BlocPlurality", "GeneralRating"]
 TIED_OK = {"Plurality", "SNTV", "Borda", "RandomDictator", "BoostedRandomDictator", "PluralityVeto"}
+LARGE_OK = {"Plurality", "SNTV", "Borda", "TopTwo", "RandomDictator", "BoostedRandomDictator"}
 DETERMINISTIC = {"STV", "IRV", "SequentialRCV", "Plurality", "SNTV", "Borda", "TopTwo", "Alaska",
                  "DominatingSets", "CondoBorda", "Rating", "Limited", "Cumulative", "Approval",
                  "BlocPlurality", "GeneralRating"}
@@ -161,11 +162,14 @@ def gen_rule_cases(rng, n, rule_pool=None, with_scores=True):
             jp = next(gen.small_scope_profiles(rng, n_cands=3, n_distinct=3, count=1))
             ncand, fam = 3, "small"
         else:
-            jp, names = gen.ranked_profile(rng, ties=ties, weights="mixed")
-            ncand, fam = len(names), "random" + (":ties" if ties else "")
+            jp, names = gen.ranked_profile(rng, ties=ties, weights="mixed", allow_large=rule in LARGE_OK)
+            ncand, fam = len(names), "random" + (":ties" if ties else "") + (":large" if len(names) > 7 else "")
         if rule in ("DominatingSets", "CondoBorda") and ncand > 6:
             continue
         m = rng.randint(1, ncand)
+        if rule in ("Plurality", "SNTV") and rng.random() < 0.1:
+            jp, names = gen.four_way_pair_tie(rng)
+            ncand, fam, m, tb = len(names), "four-way-pair-tie", rng.randint(1, 3), "borda"
         if rng.random() < 0.04:
             m = rng.choice([0, ncand + 1])
         cfg = {"m": m, "tiebreak": tb}
